@@ -52,11 +52,14 @@ META = {
         "passed an XREF_MISSING warning (directly or through a helper that "
         "always warns; `not node` is read as `node is None` because docutils' Node.__bool__ returns True). "
         "R4: a manually numbered footnote gets its label as first possible child, an auto footnote is registered with "
-        "note_autofootnote instead (docutils inserts the label at index 0), never both; the label text is the footnote's name; all "
-        "registry calls are dominated by a not-a-duplicate test on the name (document.nameids, or the footnote registries the call "
+        "note_autofootnote instead (docutils inserts the label at index 0), never both; the label text is the footnote's name "
+        "(the not-a-duplicate test in front of the registry calls is only listed as evidence since round 9: with the test removed the "
+        "tree stays well formed - docutils moves both names to dupnames, gives the second footnote a fresh id and reports the "
+        "references - so recognising duplicates is C11.R6's subject, not a necessary condition of C03; the forms understood are: "
+        "a test on the name (document.nameids, or the footnote registries the call "
         "registers into; any(...) over `a + b` or itertools.chain(a, b) / loop / one-return helper / membership in a set of the "
         "registered names, with the same normalisation on both sides or none; the element test may be a disjunction of "
-        "memberships, a conjunction that narrows it is a violation); document.footnotes/autofootnotes/symbol_footnotes are only "
+        "memberships, a conjunction that narrows it is noted as weak)); document.footnotes/autofootnotes/symbol_footnotes are only "
         "reordered by MyST code, never filtered, truncated or emptied. "
         "R5: in transforms.py / myst_refs.py an existing node (loop variable over the tree) is re-attached only after being removed "
         "from its old parent, at most once; children moved out of a node (X.children, followed through helpers) are moved at most "
@@ -76,6 +79,11 @@ META = {
         "R6: the first child a new section can receive, on every path, is its nodes.title (interprocedural may-append summary: "
         "direct appends, note_*_target(_, msgnode), create_warning(append_to=), becoming the current node; parameter guards of "
         "helpers evaluated against the call's literal arguments). "
+        "R8 also: a function that collects in a local list the nodes returned by calls that register names/ids with the document "
+        "(run_directive, nested renders, anything reaching note_*_target/set_id) and returns that list must return it on every path "
+        "that can follow such a call (an early `return` without the list drops nodes whose names stay registered). "
+        "R9 also: when nodes are parsed into a document created on the side (make_document/new_document) and its children are moved "
+        "into the real tree, that document's id registry and footnote registries are shared with / merged into the real document's. "
         "R8: a node constructed locally and made the current node for rendering (current_node_context without append) is afterwards "
         "attached, handed on or has its children used - not merely read as text (render methods register footnote references, "
         "targets and ids with the document). "
@@ -1152,6 +1160,15 @@ def _dup_test(t: ast.expr, pol: bool, names_src: list[str], needed: set[str], fi
         if needed <= regs:
             return "ok", f"no registered footnote ({', '.join(sorted(regs))}) carries the name"
         return "weak", f"the duplicate test only searches document.{'/'.join(sorted(regs)) or '?'} but the footnote is registered in document.{'/'.join(sorted(needed - regs))}"
+    if any(isinstance(x, ast.Attribute) and x.attr == "ids" and "document" in unparse(x.value) for x in ast.walk(t)) and any(isinstance(x, ast.Name) and x.id in names_src for x in ast.walk(t)):
+        # the name is looked up in the *id* registry: ids are not an injective image of names
+        if pol and not isinstance(t, ast.Compare):
+            return "none", ""
+        return "weak", (
+            f"the duplicate test `{short(t, 60)}` looks the footnote's name up in document.ids: an id is not the name "
+            "(make_id folds case and punctuation and is empty for a purely numeric label, and docutils gives another id when that one is taken), "
+            "so a footnote with exactly the same name can go unnoticed"
+        )
     if isinstance(t, ast.Call) and fi is not None and depth < 2 and isinstance(t.func, ast.Attribute) and unparse(t.func.value) == "self" and any(unparse(a) in names_src for a in t.args):
         # `if self._is_duplicate(name): ... return` - a one-return helper is read through
         hp = _helper_predicate_args(fi, t)
@@ -1292,7 +1309,7 @@ def _registry_writes(corpus: Corpus, rep: Report) -> None:
 
 @rule("C03.R4")
 def r4_footnote_shape(corpus: Corpus, rep: Report, tier: str):
-    rep.rule("C03.R4", "manual footnote: label is the first child; auto footnote: note_autofootnote instead (docutils inserts the label); never both; registry calls dominated by a not-a-duplicate test covering the registry used; footnote registries are only reordered, never shrunk")
+    rep.rule("C03.R4", "manual footnote: label is the first child; auto footnote: note_autofootnote instead (docutils inserts the label); never both; footnote registries are only reordered, never shrunk (the not-a-duplicate test is listed as evidence only: C11.R6)")
     n = 0
     for fi in corpus.all_functions():
         if fi.is_lambda:
@@ -1374,16 +1391,11 @@ def r4_footnote_shape(corpus: Corpus, rep: Report, tier: str):
                         break
                     if v == "unknown" or (v == "weak" and verdict == "none"):
                         verdict, why = v, w
-                if verdict == "ok":
-                    rep.ok("C03.R4", kk, fi.module.site(x), why)
-                elif verdict == "unknown":
-                    rep.error("C03.R4", f"{fi.module.site(x)} {kk}: a dominating test on the footnote's name exists but is not understood ({why})")
-                else:
-                    rep.violation(
-                        "C03.R4", kk, fi.module.site(x),
-                        ("the footnote is registered without a dominating not-a-duplicate test on its name" if verdict == "none" else why)
-                        + ": a second definition with the same label is registered too, docutils moves the name to dupnames and the ids/labels of both footnotes become inconsistent",
-                    )
+                # Evidence only (not judged): whether a duplicate definition is recognised is C11.R6's subject.  A duplicate
+                # that slips through is still a well-formed tree: docutils moves both names to dupnames, gives the second
+                # footnote a fresh id and reports the references (reproduced against the real code with the test removed).
+                note = {"ok": why, "none": "no dominating not-a-duplicate test on the name", "weak": why, "unknown": f"not understood ({why})"}[verdict]
+                rep.listed("C03.R4", kk, fi.module.site(x), note[:200])
     if n < 1:
         rep.error("C03.R4", "no footnote construction found")
     _registry_writes(corpus, rep)
@@ -1399,7 +1411,7 @@ def r4_footnote_shape(corpus: Corpus, rep: Report, tier: str):
             rep.ok("C03.R4", "docutils Footnotes.number_footnotes inserts the label at index 0", m.rel)
         else:
             rep.error("C03.R4", "docutils Footnotes.number_footnotes no longer inserts nodes.label at index 0 (sibling changed)")
-    rep.expect_min("C03.R4", 8, "footnote shape obligations in render_footnote_reference")
+    rep.expect_min("C03.R4", 5, "footnote shape obligations in render_footnote_reference")
 
 
 
@@ -3036,9 +3048,65 @@ def _caller_discards(mv, cfi: FunctionInfo, call: ast.Call, callee: FunctionInfo
 TEXT_READERS = {"clean_astext", "astext", "add_line_and_source_path", "add_line_and_source_path_r", "copy_attributes", "isinstance", "len", "str", "repr"}
 
 
+def _registers_with_document(corpus: Corpus, fi: FunctionInfo, call: ast.Call) -> bool:
+    """Can the call register names/ids with the document (run a directive or role, or reach a note_*_target /
+    set_id / note_*footnote call in the package)?"""
+    g = get_callgraph(corpus)
+
+    def direct(f: FunctionInfo) -> bool:
+        for c in f.local_nodes() if not f.is_lambda else []:
+            if isinstance(c, ast.Call) and isinstance(c.func, ast.Attribute) and (c.func.attr in REGISTERING_CALLS or c.func.attr.startswith("note_")):
+                return True
+        return False
+
+    tgs = [t for t in g.resolve_call(call, fi) if isinstance(t, FunctionInfo)]
+    if any(t.name in ("run_directive", "nested_render_text", "render_children") for t in tgs):
+        return True  # third-party directives / render methods register what they create
+    cache = corpus.cache("c03-registering-funcs", lambda: {})
+    for t in tgs:
+        if t.fq not in cache:
+            cache[t.fq] = any(direct(corpus.func(q)) if corpus.has_func(q) else False for q in g.reachable([t]))
+        if cache[t.fq]:
+            return True
+    return False
+
+
+def _collected_nodes_not_dropped(corpus: Corpus, rep: Report) -> None:
+    """A function that collects, in a local list, the nodes returned by calls that register names/ids with the
+    document must hand that list out on every path that follows such a call: a `return` without the list drops
+    nodes whose ids/names stay registered - links to them get a refid that is not in the tree, and no warning."""
+    for fi in corpus.all_functions():
+        if fi.is_lambda or fi.module.name.endswith(("._docs", ".parse_html")) or "docutils.nodes" not in set(fi.module.imports.values()):
+            continue
+        collectors: dict[str, list[ast.AST]] = {}
+        for node, recv, vals, how in _attach_events(fi):
+            if how in ("extend", "append", "+=") and isinstance(recv, ast.Name) and _is_plain_container(fi, recv):
+                for v in vals:
+                    if isinstance(v, ast.Call) and _registers_with_document(corpus, fi, v):
+                        collectors.setdefault(recv.id, []).append(node)
+        for name, adds in collectors.items():
+            rets = [r for r in fi.local_nodes() if isinstance(r, ast.Return)]
+            if not any(r.value is not None and any(isinstance(x, ast.Name) and x.id == name for x in ast.walk(r.value)) for r in rets):
+                continue  # the list is not the function's result (it is attached here or used otherwise)
+            cfg = get_cfg(fi)
+            rep.saw_function(fi.fq)
+            add_stmts = {cfg.stmt_of(a) for a in adds}
+            bad = []
+            for r in rets:
+                if r.value is not None and any(isinstance(x, ast.Name) and x.id == name for x in ast.walk(r.value)):
+                    continue
+                if any(r in cfg.reachable_from(a) for a in add_stmts):
+                    bad.append(r)
+            key0 = f"{fi.fq}|nodes collected in `{name}` are handed out on every path"
+            if not bad:
+                rep.ok("C03.R8", key0, fi.module.site(adds[0]), f"{len(rets)} return(s), every one that can follow `{short(adds[0], 40)}` carries `{name}`")
+            for r in bad:
+                rep.violation("C03.R8", f"{key0}|{short(r, 60)}", fi.module.site(r), f"`{short(r, 50)}` can follow `{short(adds[0], 50)}` (an earlier loop iteration) and returns without `{name}`: nodes already created are dropped while the names/ids they registered stay in the document, so a link to them gets a refid that is not in the tree and no 'target not found' warning")
+
+
 @rule("C03.R8")
 def r8_no_throwaway_render_root(corpus: Corpus, rep: Report, tier: str):
-    rep.rule("C03.R8", "a fresh node that is made the current node for rendering is attached / handed on, not merely read as text (rendering registers ids, footnote references and targets with the document)")
+    rep.rule("C03.R8", "a fresh node that is made the current node for rendering is attached / handed on, not merely read as text; nodes collected from registering calls are returned on every path (rendering registers ids, footnote references and targets with the document)")
     n = 0
     for fi in corpus.all_functions():
         if fi.is_lambda or fi.module.name.endswith("._docs"):
@@ -3087,6 +3155,7 @@ def r8_no_throwaway_render_root(corpus: Corpus, rep: Report, tier: str):
                 rep.ok("C03.R8", key, site, kept)
             else:
                 rep.violation("C03.R8", key, site, f"`{var}` is built here, made the current node while children are rendered into it, and afterwards only read as text / for attributes: whatever the render methods registered with the document (footnote references, targets, ids) now refers to nodes that are not in the tree")
+    _collected_nodes_not_dropped(corpus, rep)
     rep.expect_min("C03.R8", 8, "render roots built locally and entered without append=True (title, thead/tbody, definition-list and field-list parts, link nodes)")
 
 
@@ -3132,9 +3201,64 @@ def _registered_after(fi: FunctionInfo, cfg, st, var: str | None) -> bool:
     return bool(regs) and not cfg.paths_avoiding(st, EXIT, lambda x: x in regs)
 
 
+DOC_FACTORIES = ("docutils.utils.new_document", "docutils.nodes.document")
+ID_REGISTRIES = ("ids",)
+FOOTNOTE_REGS = ("autofootnotes", "footnotes", "symbol_footnotes", "autofootnote_refs", "footnote_refs")
+
+
+def _is_doc_factory(corpus: Corpus, fi: FunctionInfo, v: ast.expr | None, depth: int = 0) -> bool:
+    if not isinstance(v, ast.Call) or depth > 2:
+        return False
+    if _resolved(fi, v.func) in DOC_FACTORIES:
+        return True
+    for t in get_callgraph(corpus).resolve_call(v, fi):
+        if isinstance(t, FunctionInfo) and not t.is_lambda:
+            rets = [r for r in t.local_nodes() if isinstance(r, ast.Return) and r.value is not None]
+            if rets and all(_is_doc_factory(corpus, t, r.value, depth + 1) for r in rets):
+                return True
+    return False
+
+
+def _scratch_document_children(corpus: Corpus, rep: Report) -> None:
+    """Nodes parsed into a document created on the side get their ids from *that* document's id registry and their
+    footnotes are entered in *its* footnote registries.  Moving its children into the real tree without carrying
+    those registries over (sharing them beforehand or merging them afterwards) leaves ids the real document does not
+    know - the next id it allocates can be the same - and footnotes that docutils' Footnotes transform never labels."""
+    for fi in corpus.all_functions():
+        if fi.is_lambda or fi.module.name.endswith("._docs"):
+            continue
+        docs = {}
+        for n in fi.local_nodes():
+            if isinstance(n, ast.Assign) and len(n.targets) == 1 and isinstance(n.targets[0], ast.Name) and _is_doc_factory(corpus, fi, n.value):
+                docs[n.targets[0].id] = n
+        for dname, made in docs.items():
+            moves = [node for node, recv, vals, how in _attach_events(fi) if how in MOVE_HOWS and any((_children_of(v) is not None and unparse(_children_of(v)) == dname) for v in vals)]
+            moves += [node for node, recv, vals, how in _attach_events(fi) if how in ("extend", "+=") and any(isinstance(v, ast.Name) and v.id == dname for v in vals)]
+            if not moves:
+                continue
+            rep.saw_function(fi.fq)
+
+            def carried(regs) -> bool:
+                for x in fi.local_nodes():
+                    # dname.reg = <real>.reg   (share)      /   <real>.reg.update|extend(dname.reg)   (merge)
+                    if isinstance(x, ast.Assign) and any(isinstance(t, ast.Attribute) and t.attr in regs and unparse(t.value) == dname for t in x.targets) and isinstance(x.value, ast.Attribute) and x.value.attr in regs and "document" in unparse(x.value.value):
+                        return True
+                    if isinstance(x, ast.Call) and isinstance(x.func, ast.Attribute) and x.func.attr in ("update", "extend") and isinstance(x.func.value, ast.Attribute) and x.func.value.attr in regs and "document" in unparse(x.func.value.value) and x.args and isinstance(x.args[0], ast.Attribute) and x.args[0].attr in regs and unparse(x.args[0].value) == dname:
+                        return True
+                return False
+
+            key = f"{fi.fq}|children of the scratch document `{dname}` keep their ids and footnotes registered"
+            site = fi.module.site(moves[0])
+            missing = [what for what, regs in (("id registry (ids)", ID_REGISTRIES), ("footnote registries (autofootnotes/footnotes/...)", FOOTNOTE_REGS)) if not carried(regs)]
+            if not missing:
+                rep.ok("C03.R9", key, site, "the scratch document shares / merges its id and footnote registries with the real document")
+            else:
+                rep.violation("C03.R9", key, site, f"`{short(moves[0], 50)}` moves nodes parsed into `{dname}` (created by `{short(made.value, 30)}`) into the real tree, but its {' and '.join(missing)} are neither shared with nor merged into the real document: ids allocated there can be allocated again (duplicate ids), and footnotes registered there are never numbered/labelled by docutils' Footnotes transform")
+
+
 @rule("C03.R9")
 def r9_ids_registered(corpus: Corpus, rep: Report, tier: str):
-    rep.rule("C03.R9", "every id MyST gives to a node itself is registered with the document (note_*_target / set_id), so that the next id cannot collide with it")
+    rep.rule("C03.R9", "every id MyST gives to a node itself is registered with the document (note_*_target / set_id), so that the next id cannot collide with it; children of a scratch document are moved into the tree only with its id and footnote registries shared/merged")
     n = 0
     for fi in corpus.all_functions():
         if fi.is_lambda or fi.module.name.endswith(("._docs", ".parse_html")):
@@ -3195,6 +3319,7 @@ def r9_ids_registered(corpus: Corpus, rep: Report, tier: str):
                     rep.ok("C03.R9", key, site)
                 else:
                     rep.violation("C03.R9", key, site, f"`{short(c, 50)}` gives the node an id without registering it with the document: a later node can be given the same id")
+    _scratch_document_children(corpus, rep)
     rep.expect_min("C03.R9", 2, "the equation target built with ids= (sphinx_.py) and the make_glossary_term call (render_dl)")
 
 
@@ -3305,7 +3430,6 @@ def mutants(corpus: Corpus):
     st = find_node(f, lambda n: isinstance(n, ast.AugAssign) and "nodes.label" in unparse(n.value))
     add("c03-footnote-label-dropped", "C03.R4", base, st, "pass", "footnote", canary=True)
     iff = find_node(f, lambda n: isinstance(n, ast.If) and isinstance(n.body[-1], ast.Return) and "names" in unparse(n.test))
-    add("c03-footnote-duplicate-return-dropped", "C03.R4", base, iff.body[-1] if iff is not None and isinstance(iff.body[-1], ast.Return) else None, "pass", "not-a-duplicate")
     st2 = find_node(f, lambda n: isinstance(n, ast.Assign) and unparse(n.targets[0]) == "footnote['auto']")
     add("c03-footnote-label-on-auto-branch-too", "C03.R4", base, st2, (_stmt_text(base, st) if st is not None else "pass") + "\n" + (_indent(base, st2) if st2 is not None else "") + (_stmt_text(base, st2) if st2 is not None else ""), "label xor auto")
     # ---- R5
@@ -3424,6 +3548,24 @@ def mutants(corpus: Corpus):
         add("c03-inline-messages-filtered-into-second-list", "C03.R5", mk, r_.value.elts[1], f"list(filter(lambda n: isinstance(n, nodes.system_message), {ch}))", "returned node collections")
     else:
         out.append(("c03-inline-messages-returned-in-both-lists", "MockInliner.parse no longer returns (container.children, ...)"))
+    # ---- round 9: collected results dropped by an early return; scratch-document registries
+    h2n = corpus.mod("mdit_to_docutils.html_to_nodes")
+    f = h2n.func("html_to_nodes")
+    ext = [n for n in f.local_nodes() if isinstance(n, ast.Expr) and isinstance(n.value, ast.Call) and unparse(n.value.func) == "nodes_list.extend" and "run_directive" in unparse(n.value)]
+    ext.sort(key=lambda n: n.lineno)
+    if len(ext) >= 2:
+        st = ext[-1]
+        ind = _indent(h2n, st)
+        add("c03-html-empty-admonition-returns-raw-html", "C03.R8", h2n, st, f"if not content:\n{ind}    return default_html(text, renderer.document['source'], line_number)\n{ind}" + _stmt_text(h2n, st), "handed out on every path")
+        st = ext[0]
+        ind = _indent(h2n, st)
+        add("c03-html-image-without-alt-returns-nothing", "C03.R8", h2n, st, f"if 'alt' not in child.attrs:\n{ind}    return []\n{ind}" + _stmt_text(h2n, st), "handed out on every path")
+    else:
+        out.append(("c03-html-empty-admonition-returns-raw-html", "html_to_nodes no longer collects two run_directive results"))
+    f = base.func("DocutilsRenderer.render_restructuredtext")
+    shared = find_node(f, lambda n: isinstance(n, ast.Assign) and isinstance(n.targets[0], ast.Attribute) and n.targets[0].attr == "ids" and isinstance(n.value, ast.Attribute) and n.value.attr == "ids")
+    if shared is not None:  # only once the scratch document shares its registries (revert of that repair)
+        add("c03-eval-rst-id-registry-not-shared", "C03.R9", base, shared, "pass", "scratch document")
     # ---- R8: rendering into a node that is only read as text / never attached
     f = base.func("DocutilsRenderer.render_image")
     st = find_node(f, lambda n: isinstance(n, ast.Assign) and isinstance(n.value, ast.Call) and unparse(n.value.func) == "self.renderInlineAsText")
@@ -3462,16 +3604,7 @@ def mutants(corpus: Corpus):
     # ---- R4: footnote registries
     f = base.func("DocutilsRenderer.render_footnote_reference")
     it = find_node(f, lambda n: isinstance(n, ast.BinOp) and isinstance(n.op, ast.Add) and unparse(n.right).endswith(".autofootnotes") and unparse(n.left).endswith(".footnotes"))
-    add("c03-duplicate-test-misses-autofootnotes", "C03.R4", base, it, unparse(it.left) if it is not None else "", "not-a-duplicate")
     f = base.func("DocutilsRenderer.render_footnote_reference")
-    anyc = find_node(f, lambda n: isinstance(n, ast.Call) and dotted(n.func) == "any" and n.args and isinstance(n.args[0], ast.GeneratorExp) and "names" in unparse(n.args[0].elt))
-    if anyc is not None:
-        elt = anyc.args[0].elt
-        tgt_ = unparse(anyc.args[0].generators[0].target)
-        add("c03-duplicate-test-looks-at-dupnames-only", "C03.R4", base, elt, f"target in {tgt_}['dupnames']", "not-a-duplicate")
-        add("c03-duplicate-test-narrowed-by-extra-condition", "C03.R4", base, elt, f"({unparse(elt)}) and bool({tgt_}.get('auto'))", "not-a-duplicate")
-    else:
-        out.append(("c03-duplicate-test-looks-at-dupnames-only", "any(...) duplicate test not found"))
     f = tf.func("SortFootnotes.apply")
     st = find_node(f, lambda n: isinstance(n, ast.Expr) and isinstance(n.value, ast.Call) and unparse(n.value.func).endswith(".autofootnotes.sort"))
     if st is not None:
